@@ -250,12 +250,16 @@ def special_c17(res, tier, seed, workdir, stats):
     facts_judge(res, "C17", c17_concrete)
     targets = ["s390x", "powerpc", "i686"]
     per_target = {}
+    native_outs = {}
     # native reference run of the same cases (LE/64)
     binp, blog = hh.build_runner("dev-std-base")
     for tkey in ["native"] + targets:
         r = random.Random(seed * 7919 + 17)
         if tkey == "native":
             info = hh.runner_info(binp)
+            # the model class of the native run must be the one used for the Miri targets (portable +
+            # dispatcher-as-portable is not the same on x86): run the SAME cases natively for the oracle
+            native_outs["outs"] = True
             st = check_mod().run_config(res, "C17", tier, seed, "dev-std-base", binp, info, workdir, gen_override=gen_c17, label="c17-fixed")
             stats.append(st)
             continue
@@ -264,6 +268,8 @@ def special_c17(res, tier, seed, workdir, stats):
         def ex(cases, tag, tkey=tkey, holder=holder):
             outs, crashed, info = hh.run_miri(tkey, cases, workdir, tag, shards=hh.NPROC // 3 if tier == "thorough" else 4)
             holder["info"] = info
+            holder["outs"] = outs
+            holder["cases"] = cases
             return outs, crashed
         # the model is target independent: the cfg line only selects `other`/std
         info0 = {"arch": "other", "std": "1", "_line": "cfg arch=other std=1 tf_sse41=0 tf_avx2=0 simd128=0 cpu_sse41=0 cpu_avx2=0"}
@@ -272,6 +278,21 @@ def special_c17(res, tier, seed, workdir, stats):
         if holder.get("info") is None:
             # interpreter/sysroot unavailable: recorded, never an alarm
             res.notes.append(f"Miri target {tkey} not executed (sysroot unavailable)")
+        # the property's own oracle: byte-for-byte the same outputs as on the little-endian 64-bit host
+        touts, tcases = holder.get("outs"), holder.get("cases")
+        if touts and native_outs.get("outs"):
+            refs, _ = hh.run_real(binp, tcases, workdir, "C17.native-ref2", shards=2)
+            nbad = 0
+            for k, c in enumerate(tcases):
+                if touts[k] is not None and refs[k] is not None:
+                    d = hh.first_diff(touts[k], refs[k])
+                    if d is not None:
+                        nbad += 1
+                        if nbad <= 2:
+                            res.replay(dict(kind="impl-violates-property", config=f"miri-{tkey}", message=f"output on {tkey} differs from the little-endian 64-bit host at op `{c.ops[d][:80]}`: {touts[k][d][:70]} vs {refs[k][d][:70]}",
+                                            ops=c.ops[:d + 1], on_target=touts[k][:d + 1], on_host=refs[k][:d + 1]))
+            res.n_oracle_fail += nbad
+            st["differs_from_host"] = nbad
         stats.append(st)
     res.cov["targets"] = ["x86_64 native (LE/64)"] + [f"{t} under Miri" for t in targets]
 
@@ -609,6 +630,34 @@ def check_mod():
 
 
 T.PRE.update({"C16": pre_facts, "C17": pre_facts, "C18": pre_facts, "C15": pre_facts})
-T.SPECIAL.update({"C01": mk_cross("C01", gen_cross_c01), "C05": mk_cross("C05", gen_cross_c05), "C06": mk_cross("C06", gen_cross_c06),
+def gen_cross_c12(r, tier, info):
+    return [gen.adapters(r, ["portable", "auto"]) for _ in range(20 if tier == "quick" else 300)] + [gen.builders(r) for _ in range(10 if tier == "quick" else 100)]
+
+
+def special_c07(res, tier, seed, workdir, stats):
+    """Default of the back ends that only run under Miri (NeonHash, WasmHash) + the BE portable path"""
+    def g_neon(r, tier, info):
+        return [gen.default_case(r, ["portable", "neon", "auto"], std=False) for _ in range(8 if tier == "quick" else 100)]
+
+    def g_wasm(r, tier, info):
+        return [gen.default_case(r, ["portable", "wasm", "auto"], std=False) for _ in range(8 if tier == "quick" else 100)]
+    if miri_ok("aarch64"):
+        def ex(cases, tag):
+            outs, crashed, info = hh.run_miri("aarch64", cases, workdir, tag, shards=4)
+            return outs, crashed
+        info0 = {"arch": "aarch64", "std": "1", "_line": "cfg arch=aarch64 std=1 tf_sse41=0 tf_avx2=0 simd128=0 cpu_sse41=0 cpu_avx2=0"}
+        stats.append(check_mod().run_config(res, "C07", tier, seed, "miri-aarch64", None, info0, workdir, gen_override=g_neon, executor=ex, label="c07-neon"))
+    else:
+        res.notes.append("Miri aarch64 unavailable: NeonHash::default not executed")
+
+    def exw(cases, tag):
+        outs, crashed, info = run_miriwasm(cases, workdir, tag, shards=4)
+        return outs, crashed
+    info1 = {"arch": "wasm32", "std": "0", "simd128": "1", "_line": "cfg arch=wasm32 std=0 tf_sse41=0 tf_avx2=0 simd128=1 cpu_sse41=0 cpu_avx2=0"}
+    stats.append(check_mod().run_config(res, "C07", tier, seed, "miri-wasm32-simd128", None, info1, workdir, gen_override=g_wasm, executor=exw, label="c07-wasm"))
+
+
+T.SPECIAL.update({"C01": mk_cross("C01", gen_cross_c01, ["s390x", "i686"]), "C05": mk_cross("C05", gen_cross_c05, ["s390x", "i686"]), "C06": mk_cross("C06", gen_cross_c06),
+                  "C07": special_c07, "C12": mk_cross("C12", gen_cross_c12),
                   "C11": mk_cross("C11", gen_cross_c11, ["s390x", "i686"]), "C13": mk_cross("C13", gen_cross_c13), "C14": mk_cross("C14", gen_cross_c14)})
 T.SPECIAL.update({"C15": special_c15, "C09": special_c09, "C03": special_c03, "C04": special_c04, "C08": special_c08, "C16": special_c16, "C17": special_c17, "C18": special_c18})
